@@ -45,6 +45,9 @@ def run(ctx, rep):
     manifests(rep)
     db = ctx.main
     cfg = db.config
+    # which layers are hashed with the masked hash at all (the other half of "right hashes")
+    for key, ok, detail, loc in common.friendly_selection(db):
+        rep.ob('C03.select', key, ok, detail, loc, cfg)
     lay = db.layouts()
     pdb = ctx.db('parser')
     # parser Display table
